@@ -870,13 +870,168 @@ def emit_pointers(PT):
     out.append('Definition union_borrow_arms_ok : bool := %s.' % b(U['arms_ok']))
     return out
 
+
+# ----------------------------------------------------------------------------
+# comparison / hashing / formatting impls: classification of each method body (C14)
+# ----------------------------------------------------------------------------
+CMP_KEY_ORDER = [('Arc', 'eq'), ('Arc', 'ne'), ('Arc', 'partial_cmp'), ('Arc', 'lt'), ('Arc', 'le'), ('Arc', 'gt'), ('Arc', 'ge'),
+                 ('Arc', 'cmp'), ('Arc', 'Display::fmt'), ('Arc', 'Debug::fmt'), ('Arc', 'hash'), ('Arc', 'borrow'), ('Arc', 'as_ref'),
+                 ('ArcBorrow', 'eq'), ('ArcBorrow', 'ne'), ('ArcBorrow', 'Debug::fmt'),
+                 ('ArcUnion', 'eq'), ('ArcUnion', 'Debug::fmt'),
+                 ('HeaderSliceWithLength', 'partial_cmp'), ('HeaderSliceWithLength', 'cmp'),
+                 ('OffsetArc', 'Debug::fmt'), ('OffsetArc', 'eq'), ('OffsetArc', 'ne'),
+                 ('ThinArc', 'eq'), ('ThinArc', 'partial_cmp'), ('ThinArc', 'cmp'), ('ThinArc', 'hash'), ('ThinArc', 'Debug::fmt')]
+BINOPS = {'==': 'eq', '!=': 'ne', '<': 'lt', '<=': 'le', '>': 'gt', '>=': 'ge'}
+
+def unwrap(e):
+    e = strip(e)
+    while e[0] == 'unsafe' and not e[1][1] and e[1][2] is not None:
+        e = strip(e[1][2])
+    return e
+
+def pointee_of(e, who):
+    """does `e` denote the value `who` (self/other/a/b) points to?  forms: **x, *(*x), *x.0.as_ptr()"""
+    e = unwrap(e)
+    if e[0] == 'unary' and e[1] == '*':
+        x = unwrap(e[2])
+        if x[0] == 'unary' and x[1] == '*' and is_path(unwrap(x[2]), who): return True
+        if x[0] == 'mcall' and x[2] == 'as_ptr':
+            y = unwrap(x[1])
+            if y[0] == 'field' and y[2] == '0' and is_path(unwrap(y[1]), who): return True
+    return False
+
+def ref_pointee_of(e, who):
+    e = unwrap(e)
+    return e[0] == 'ref' and pointee_of(e[2], who)
+
+def is_ptr_eq(e):
+    e = unwrap(e)
+    if e[0] == 'call' and (call_path(e) or '') in ('Self::ptr_eq', 'Arc::ptr_eq') and len(e[2]) == 2 and is_path(unwrap(e[2][0]), 'self') and is_path(unwrap(e[2][1]), 'other'):
+        return True
+    if e[0] == 'call' and (call_path(e) or '').endswith('ptr::addr_eq') and len(e[2]) == 2:
+        def p(x, who):
+            x = unwrap(x)
+            if x[0] == 'mcall' and x[2] == 'as_ptr':
+                y = unwrap(x[1]); return y[0] == 'field' and y[2] == '0' and is_path(unwrap(y[1]), who)
+            return False
+        return p(e[2][0], 'self') and p(e[2][1], 'other')
+    return False
+
+def classify_cmp(ty, meth, fn):
+    try:
+        body = fn_body(fn)
+    except ParseError:
+        return 'FUnknownForm'
+    stm = [x for x in body[1] if x[0] != 'item']
+    t = body[2]
+    if t is None: return 'FUnknownForm'
+    t = unwrap(t)
+    opname = meth.split('::')[0] if '::' not in meth else meth
+    # plain delegation by operator
+    def deleg_binop(e, want, l='self', r='other'):
+        e = unwrap(e)
+        return e[0] == 'binary' and BINOPS.get(e[1]) == want and pointee_of(e[2], l) and pointee_of(e[3], r)
+    if ty == 'ArcUnion' and meth == 'eq':
+        txt = toks_text(fn.body).replace(' ', '')
+        exp = 'usecrate::ArcUnionBorrow::*;match(self.borrow(),other.borrow()){(First(x),First(y))=>x==y,(Second(x),Second(y))=>x==y,(_,_)=>false,}'
+        return 'FUnionMatch' if txt == exp else 'FUnknownForm'
+    if stm: return 'FUnknownForm'
+    if meth in BINOPS.values():
+        if deleg_binop(t, meth): return 'FDeleg'
+        if t[0] == 'binary' and t[1] == '||' and is_ptr_eq(t[2]) and deleg_binop(t[3], meth): return 'FPtrEqOr'
+        if t[0] == 'binary' and t[1] == '&&':
+            n = unwrap(t[2])
+            if n[0] == 'unary' and n[1] == '!' and is_ptr_eq(n[2]) and deleg_binop(t[3], meth): return 'FNotPtrEqAnd'
+    if meth in ('partial_cmp', 'cmp'):
+        if t[0] == 'mcall' and t[2] == meth and pointee_of(t[1], 'self') and len(t[4]) == 1 and ref_pointee_of(t[4][0], 'other'): return 'FDeleg'
+        # tuple of field references
+        if t[0] == 'mcall' and t[2] == meth and len(t[4]) == 1:
+            def fields(e, who):
+                e = unwrap(e)
+                if e[0] == 'ref': e = unwrap(e[2])
+                if e[0] != 'tuple': return None
+                out = []
+                for x in e[1]:
+                    x = unwrap(x)
+                    if x[0] != 'ref': return None
+                    y = unwrap(x[2]); path = []
+                    while y[0] == 'field': path.append(y[2]); y = unwrap(y[1])
+                    if not is_path(y, who): return None
+                    out.append({('header', 'header'): 'FldHeader', ('slice',): 'FldSlice', ('length', 'header'): 'FldLen'}.get(tuple(path)))
+                return out
+            a = fields(t[1], 'self'); b = fields(t[4][0], 'other')
+            if a is not None and a == b and None not in a: return '(FTuple [%s])' % '; '.join(a)
+    if meth == 'hash':
+        if t[0] == 'mcall' and t[2] == 'hash' and pointee_of(t[1], 'self') and len(t[4]) == 1 and is_path(unwrap(t[4][0]), 'state'): return 'FDeleg'
+    if meth in ('Debug::fmt', 'Display::fmt'):
+        tr = meth.split('::')[0]
+        if t[0] == 'call' and (call_path(t) or '') == 'fmt::%s::fmt' % tr and len(t[2]) == 2 and is_path(unwrap(t[2][1]), 'f'):
+            if ref_pointee_of(t[2][0], 'self'): return 'FDeleg'
+            a0 = unwrap(t[2][0])
+            if a0[0] == 'ref':
+                x = unwrap(a0[2])
+                if x[0] == 'mcall' and x[2] == 'borrow' and is_path(unwrap(x[1]), 'self') and not x[4]: return 'FViaBorrow'
+    if meth in ('borrow', 'as_ref') and is_path(t, 'self'): return 'FDeleg'
+    # ThinArc: ThinArc::with_arc(self, |a| ThinArc::with_arc(other, |b| <inner>))
+    if t[0] == 'call' and (call_path(t) or '') == 'ThinArc::with_arc' and len(t[2]) == 2 and is_path(unwrap(t[2][0]), 'self'):
+        c1 = unwrap(t[2][1])
+        if c1[0] == 'closure' and len(c1[1]) == 1:
+            a = c1[1][0].strip(); inner = unwrap(c1[2])
+            if meth == 'hash' and inner[0] == 'mcall' and inner[2] == 'hash' and is_path(unwrap(inner[1]), a) and len(inner[4]) == 1 and is_path(unwrap(inner[4][0]), 'state'):
+                return 'FViaArc'
+            if inner[0] == 'call' and (call_path(inner) or '') == 'ThinArc::with_arc' and len(inner[2]) == 2 and is_path(unwrap(inner[2][0]), 'other'):
+                c2 = unwrap(inner[2][1])
+                if c2[0] == 'closure' and len(c2[1]) == 1:
+                    b = c2[1][0].strip(); e = unwrap(c2[2])
+                    if meth == 'eq' and e[0] == 'binary' and e[1] == '==':
+                        l = unwrap(e[2]); r = unwrap(e[3])
+                        if l[0] == 'unary' and l[1] == '*' and is_path(unwrap(l[2]), a) and r[0] == 'unary' and r[1] == '*' and is_path(unwrap(r[2]), b): return 'FViaArc'
+                    if meth in ('partial_cmp', 'cmp') and e[0] == 'mcall' and e[2] == meth and is_path(unwrap(e[1]), a) and len(e[4]) == 1 and is_path(unwrap(e[4][0]), b):
+                        return 'FViaArc'
+    return 'FUnknownForm'
+
+def extract_cmp(src, facts, notes):
+    table = {}
+    for f, items in src.items.items():
+        for it in walk_items(items):
+            if it.kind != 'impl': continue
+            info = src.impl_info(it)
+            if not info or info['trait'] is None: continue
+            tr = type_text(info['trait']).replace(' ', ''); st = type_text(info['self_ty']).replace(' ', '')
+            trn = tr.split('<')[0].split('::')[-1]
+            if trn not in ('PartialEq', 'PartialOrd', 'Ord', 'Hash', 'Debug', 'Display', 'Borrow', 'AsRef'): continue
+            if it.cfg_test(): continue
+            head = st.split('<')[0]
+            if head == 'HeaderSlice':
+                head = 'HeaderSliceWithLength' if st.startswith('HeaderSlice<HeaderWithLength<') else 'HeaderSlice'
+            for c in it.children:
+                if c.kind != 'fn': continue
+                m = c.name
+                if trn in ('Debug', 'Display') and m == 'fmt': m = trn + '::fmt'
+                try:
+                    form = classify_cmp(head, m, c)
+                except (IndexError, TypeError, KeyError):
+                    form = 'FUnknownForm'
+                table[(head, m)] = form
+    rows = [(k, table.pop(k)) for k in CMP_KEY_ORDER if k in table]
+    rows += sorted(table.items())          # anything unexpected comes last (and breaks the comparison with the expected table)
+    facts['cmp'] = dict(rows=[[k[0], k[1], v] for k, v in rows])
+    # derives that the model relies on
+    S = facts.get('structs', {})
+    facts['cmp']['derives'] = dict((d['name'], sorted(d.get('derives', []))) for d in S.get('decls', [])) if isinstance(S, dict) and 'decls' in S else {}
+
+def emit_cmp(C):
+    out = ['(* --- comparison / hash / format impls, classified --- *)']
+    out.append('Definition cmp_impls : impls :=\n  ' + coq_list(['(%s, %s, %s)' % (coq_str(t), coq_str(m), f) for t, m, f in C['rows']], ';\n   ') + '.')
+    return out
+
 # ----------------------------------------------------------------------------
 # driver
 # ----------------------------------------------------------------------------
 HEADER = '''(* GENERATED by tools/extract.py from %s -- do not edit.
    source digest: %s *)
 From Coq Require Import NArith List String.
-From TV Require Import Layout SrcFacts Bits Conc Guard.
+From TV Require Import Layout SrcFacts Bits Conc Guard Cmp.
 Import ListNotations.
 Open Scope N_scope.
 '''
@@ -889,6 +1044,7 @@ def run(srcdir):
     extract_atomics(src, facts, notes)
     extract_protocol(src, facts, notes)
     extract_pointers(src, facts, notes)
+    extract_cmp(src, facts, notes)
     facts['notes'] = notes
     h = hashlib.sha256()
     for f in sorted(os.listdir(srcdir)):
@@ -901,6 +1057,7 @@ def run(srcdir):
     lines += emit_atomics(facts['atomics']); lines.append('')
     lines += emit_protocol(facts['protocol']); lines.append('')
     lines += emit_pointers(facts['pointers']); lines.append('')
+    lines += emit_cmp(facts['cmp']); lines.append('')
     return facts, '\n'.join(lines) + '\n'
 
 def jsonable(x):
